@@ -171,6 +171,17 @@ def _semantic(p, led, lys, res, Q):
         it.events.clear()
         return it, L, ws, log
 
+    def fill(L, items):
+        """put `items` into the queue, keeping whatever container type the constructor chose (list, deque, …)"""
+        q0 = L.fields[Q]
+        from ..fdai import _Deque
+        if isinstance(q0, _Deque):
+            L.fields[Q] = _Deque(list(items), q0.maxlen)
+        elif isinstance(q0, list):
+            L.fields[Q] = list(items)
+        else:
+            raise AnchorError(f"Lysosome queue is a {type(q0).__name__}: not a sequence the interpreter models")
+
     def idx(ws, x):
         for i, w in enumerate(ws):
             if w is x:
@@ -185,7 +196,7 @@ def _semantic(p, led, lys, res, Q):
                 def go(o, _cap=cap, _k=k, _thr=thr):
                     types = [ADV if i % 2 == 0 else PLAIN for i in range(_k)] + [ADV]
                     it, L, ws, log = build(o, _cap, _thr, types)
-                    L.fields[Q] = list(ws[:_k])
+                    fill(L, ws[:_k])
                     d0 = L.fields[DIG]
                     try:
                         it.call_fi(ingest, [L, ws[_k]], {})
@@ -231,7 +242,7 @@ def _semantic(p, led, lys, res, Q):
             def go(o, _n=n, _k=k, _rising=rising):
                 types = [ADV for i in range(_n)] if _rising else [ADV if i % 2 == 0 else PLAIN for i in range(_n)]
                 it, L, ws, log = build(o, 10, 100, types, rising=_rising)
-                L.fields[Q] = list(ws)
+                fill(L, ws)
                 d0 = L.fields[DIG]
                 try:
                     r = it.call_fi(digest, [L] + ([] if _k is None else [_k]), {})
@@ -300,7 +311,7 @@ def _semantic(p, led, lys, res, Q):
             it, L, ws, log = build(o, 10, 100, [PLAIN] * _n)
             for i, w in enumerate(ws):
                 w.fields["created_at"] = Unknown(f"created{i}")
-            L.fields[Q] = list(ws)
+            fill(L, ws)
             try:
                 r = it.call_fi(autoph, [L], {})
             except PyRaise as e:
@@ -331,7 +342,7 @@ def _semantic(p, led, lys, res, Q):
     for extra in (0, 1):
         def go(o, _extra=extra):
             it, L, ws, log = build(o, 10, 100, [PLAIN] * _extra)
-            L.fields[Q] = list(ws)
+            fill(L, ws)
             secret = Unknown("SECRET")
             try:
                 it.call_fi(ins, [L, secret], {})
